@@ -180,25 +180,27 @@ def provided_sensitive():
 
 
 def add_default_tweaks(items):
-    """a few fixed subsets of `items` spelled out with their default values, as one multi-line tweak each"""
-    if not items or any(t[0] == items[0][0] and 'explicit-defaults' in t[1][0] for t in GEO_TWEAKS):
+    """two entries for GEO_TWEAKS: fixed subsets of `items` spelled out with their default values, and the same with one of them
+    moved off its default (the provided/not-provided logic mostly arbitrates between two parameters).  The first line of
+    each value is a comment line of the input format, so that one table entry can carry different parameter sets."""
+    if not items or any(t[0].startswith('# explicit defaults') for t in GEO_TWEAKS):
         return
     subsets = [items, items[0::2], items[1::2], [x for x in items if 'Overpressure' not in x[0]], items[:len(items) // 2], items[len(items) // 2:]]
     vals = []
-    for sub in subsets:
-        if not sub:
-            continue
-        first, rest = sub[0], sub[1:]
-        vals.append(first[1] + ', -- explicit-defaults' + ''.join(f'\n{n}, {v}' for n, v in rest))
-    GEO_TWEAKS.append((items[0][0], vals))
-    # paired with a sibling moved off its default (the provided/not-provided logic mostly arbitrates between two parameters)
-    for j, (n, v) in enumerate(items[:12]):
+    for k, sub in enumerate(subsets):
+        if sub:
+            vals.append(f'subset {k}' + ''.join(f'\n{n}, {v}' for n, v in sub))
+    GEO_TWEAKS.append(('# explicit defaults', vals))
+    vals2 = []
+    quiet = [x for x in items if 'Overpressure' not in x[0]]
+    for j, (n, v) in enumerate(quiet[:12]):
         try:
             moved = f'{float(v) * 1.5:.6g}' if float(v) != 0 else '1.5'
         except ValueError:
             continue
-        vals2 = [moved + ''.join(f'\n{n2}, {v2}' for n2, v2 in items if n2 != n)]
-        GEO_TWEAKS.append((n, vals2))
+        vals2.append(f'and {n} moved\n{n}, {moved}' + ''.join(f'\n{n2}, {v2}' for n2, v2 in quiet if n2 != n))
+    if vals2:
+        GEO_TWEAKS.append(('# explicit defaults, one moved', vals2))
 
 
 FACTORS = ['0.9', '1.1', '0.5', '2', 'min', 'max', '1.0123457']
@@ -253,6 +255,20 @@ GEO_TWEAKS = [
     ('Reservoir Depth', ['2.718282', '3.141593']),
     ('Injection Temperature', ['63.33333']),
     ('Production Flow Rate per Well', ['47.61905']),
+    # optional sections of the report switched on (alone, and on top of whatever sections the template already has: the
+    # sections are written by separate writers one after the other)
+    ('Do AddOn Calculations', ['True\nAddOn Nickname 1, Desalinization\nAddOn CAPEX 1, 10\nAddOn OPEX 1, 0.1\nAddOn Electricity Gained 1, -100\n'
+                               'AddOn Heat Gained 1, 0.0\nAddOn Profit Gained 1, 0.05',
+                               'True\nAddOn Nickname 1, A\nAddOn CAPEX 1, 10\nAddOn OPEX 1, 0.1\nAddOn Electricity Gained 1, -100\nAddOn Heat Gained 1, 0.0\n'
+                               'AddOn Profit Gained 1, 0.05\nDo S-DAC-GT Calculations, True',
+                               'True\nAddOn Nickname 1, A\nAddOn CAPEX 1, 10\nAddOn OPEX 1, 0.1\nAddOn Electricity Gained 1, 2600\nAddOn Heat Gained 1, 0.0\n'
+                               'AddOn Profit Gained 1, 0.5\nDo Carbon Price Calculations, True\nStarting Carbon Credit Value, 0.015\n'
+                               'Ending Carbon Credit Value, 0.1\nCarbon Escalation Start Year, 5\nCarbon Escalation Rate Per Year, 0.01']),
+    ('Do S-DAC-GT Calculations', ['True']),
+    ('Do Carbon Price Calculations', ['True\nStarting Carbon Credit Value, 0.015\nEnding Carbon Credit Value, 0.1\nCarbon Escalation Start Year, 5\n'
+                                      'Carbon Escalation Rate Per Year, 0.01',
+                                      'True\nStarting Carbon Credit Value, 0.015\nEnding Carbon Credit Value, 0.1\nCarbon Escalation Start Year, 5\n'
+                                      'Carbon Escalation Rate Per Year, 0.01\nDo S-DAC-GT Calculations, True']),
     # zero costs: table rows and fields that print as 0.00 / -0.00 throughout
     ('Total Capital Cost', ['0', '0\nConstruction Years, 2', '0.001']),
     ('Total O&M Cost', ['0']),
@@ -293,6 +309,16 @@ GEO_POISON = [
     'Gradient 1, 2\nReservoir Depth, 0.5',  # passes validation, fails inside Calculate (negative electricity production)
     'Reservoir Model, 5\nReservoir Output File Name, /nonexistent/profile.txt',   # aborts with a bare sys.exit()
     'Reservoir Model, 6',                   # TOUGH2 executable missing: aborts with a bare sys.exit()
+    'Reservoir Volume Option, 3\nNumber of Fractures, 1',     # accepted, then a fracture-based reservoir model divides by zero
+]
+
+# failures INSIDE the calculation (the input is accepted, a model aborts part-way): reservoir stage, surface-plant stage,
+# bare sys.exit() of a reservoir model
+GEO_CALC_POISON = [
+    'Reservoir Volume Option, 3\nNumber of Fractures, 1',     # fracture-based reservoir models divide by (fractures - 1)
+    'Gradient 1, 2\nReservoir Depth, 0.5',
+    'Reservoir Model, 5\nReservoir Output File Name, /nonexistent/profile.txt',
+    'Reservoir Volume Option, 3\nNumber of Fractures, 1\nFracture Shape, 3',
 ]
 
 HIP_POISON = [
